@@ -25,12 +25,12 @@ CLAIMED = {
             "Polynomial model families (Z2x2, Cubic1); pressure re-evaluated through the public EOM; non-conserving "
             "mode excluded from the bracket oracle (pressure is guess-dependent there).", "DESIGN.md 3/C01"),
     "C07": ("Hypothesis metamorphic pairs: unit factor s vs 1 on the public pipeline in fresh processes, allowance from a "
-            "third run at tightened tolerances (two-level forward bound) plus conditioning-aware floors",
+            "third run at tightened tolerances (two-level forward bound) plus conditioning-aware floors; call-history oracle: the same manager / the same model object re-expressed in place after an analysis in the base units must answer like a fresh process",
             "Dimensionless outputs (alpha_n, Psi_n, vJ, vMin, LTE and wall velocity, widths*Tn, offsets, T+-/Tn) were "
             "invariant within solver-tolerance-derived allowances for every generated (model, s, setting).",
             "Exactly homogeneous polynomial models only; alpha_n >= 2e-3 by construction.", "DESIGN.md 3/C07"),
     "C08": ("Hypothesis metamorphic pairs: affine relabelling u=P(Sx+c) vs original fields, allowance from a third run at "
-            "tightened tolerances",
+            "tightened tolerances; call-history oracle: the relabelled model on the same manager / the same model object re-expressed in place after an analysis of the original labelling must answer like a fresh process",
             "vJ, alpha_n, LTE/wall velocity, T+-, multiset of widths and wall-centre separations invariant and phase "
             "locations mapped affinely for every generated relabelling.",
             "Affine relabellings (permutation, reflection, translation) of 1- and 2-field models.", "DESIGN.md 3/C08"),
@@ -43,14 +43,14 @@ CLAIMED = {
             "beyond 1e-3 are C02 territory and skipped.", "DESIGN.md 3/C04, 7.3"),
     "C09": ("Hypothesis over potentials (5 families) x temperatures x wall shapes x grid sizes; closed-form free-energy "
             "difference as oracle with a resolution-dependent envelope, rounding floor and convergence relation; "
-            "wallProfile derivative against 6th-order differences",
+            "wallProfile derivative against 6th-order differences; grids re-mapped as an out-of-equilibrium run does and directly by the user (one tail lengthened)",
             "Pressure on fixed uniform profiles equals V(low)-V(high) within the measured geometric envelope in the "
             "resolution variable, converges under M -> 2M, multiplier=0 keeps the shape; public route on bag potentials; "
             "dphi/dz exact.", "Envelope constants measured on the unchanged tree (x5), recorded in TOLERANCES.",
             "DESIGN.md 3/C09, 7.3"),
     "C10": ("Hypothesis over potentials x tracing parameters (direct and through the manager) x ~30 temperatures per object "
             "from far below to far above the tabulated ranges; thermodynamic identities, derivative consistency by "
-            "in-piece stencils, one-sided continuity, closed-form p=-V, alpha_n; call histories on one object (re-trace, in-place parameter change, re-trace ending within rounding of a tabulated temperature) with a like-for-like accuracy relation",
+            "in-piece stencils, one-sided continuity, closed-form p=-V, alpha_n; call histories on one object (re-trace, in-place parameter change, re-trace ending within rounding of a tabulated temperature) with a like-for-like accuracy relation; tables widened with extendInterpolationTable or handed over by the caller from re-used buffers (user-table oracle)",
             "e, w, cs2 relations, derivative consistency, continuity of p, dp, ddp, cs2 across range ends, p=-V(min) and "
             "alpha_n(closed form) held for every generated Thermodynamics object.",
             "Units fixed to 1 (unit dependence is C07/C11).", "DESIGN.md 3/C10, 7.3"),
@@ -67,7 +67,7 @@ CLAIMED = {
             "background immutability held on all generated cases.",
             "Synthetic collision kernels defined in function space by the harness.", "DESIGN.md 3/C12"),
     "C13": ("Hypothesis over grids x mass profiles x deviations in the Gauss-Chebyshev-Lobatto exactness family; "
-            "closed-form Chebyshev moments and direct boosted T^{mu nu} integrals as oracle; grids rescaled in place, caller's background buffers overwritten after setBackground",
+            "closed-form Chebyshev moments and direct boosted T^{mu nu} integrals as oracle; grids rescaled in place, caller's background buffers overwritten after setBackground, grid object used before by another collision array / solver in the other bases",
             "All four moments equal the closed-form integrals to rounding; stress tensor equals the direct momentum "
             "integral; linearity.", "deltaToTmunu is called on a minimal EOM object carrying only the particle list.",
             "DESIGN.md 3/C13"),
@@ -153,7 +153,7 @@ CLAIMED["C06"] = (
     "DESIGN.md 3/C06, 7.3")
 CLAIMED["C15"] = (
     "Hypothesis differential testing of Hydrodynamics against HydrodynamicsTemplateModel on template EOS at two "
-    "tolerance levels, with the independent reference arbitrating which side is wrong",
+    "tolerance levels, with the independent reference arbitrating which side is wrong; in a third of the cases the solver objects first answer efficiencyFactor for other walls (call history)",
     "vJ, vMin, matching, boundary constants, LTE velocity and efficiency factor of the two solvers agree within "
     "K tol kappa and not worse at the tighter level - except for the listed known findings.",
     "alpha_n bounded below by a positive bag constant; |vw - vJ| <= 1e-5 discarded.", "DESIGN.md 3/C15, 7.3")
